@@ -11,10 +11,11 @@ PROP = 'C13'
 COQ_HEADER = 'From FV Require Import Model.C13_Model.'
 COQ_AGREE = 'C13_agree'
 COQ_MODEL_TARGETS = ['Model/C13_Model']
-RULE = ('histories (sequential, forward/backward jumps, repeated rounds, restarts) over in-memory and SQLite datasets of 1..8 clients '
+RULE = ('histories (sequential, forward/backward jumps, repeated rounds, restarts) over in-memory, subset and SQLite datasets of 1..8 clients '
         'whose ids share prefixes and end in zero bytes, cohort sizes 1..number of clients, seeds incl. 0 and 2^32-1, '
         'rounds up to 300 in the model and up to 10^6 at property level; streaming sampler over fd.shuffled_clients '
-        'with buffer sizes 1..n+3; non-trivial = at least one sample() call returned; distinct = distinct case JSON')
+        'of all three implementations with buffer sizes 1..n+3 and seeds incl. 0, 1, 2^32-1, every comparison between independently '
+        'created streams with numpy\'s global RNG perturbed in between; non-trivial = at least one sample() call returned; distinct = distinct case JSON')
 TRUSTED = ['np.random.RandomState(s).choice(ids, size=n, replace=False): n distinct elements of ids, deterministic in s '
            '(asserted on every recomputed draw); RandomState(s).randint(a, b) in [a, b)',
            'distinct split paths give distinct JAX key data (threefry collision-freeness; checked on every key table built)']
@@ -79,16 +80,27 @@ def generate(tier, rng):
     yield {'kind': 'get', 'ids': _ids(nc, i % 3), 'n': rng.randrange(1, nc + 1),
            'seed': rng.choice([0, 1, 2 ** 32 - 1, rng.randrange(2 ** 32), rng.randrange(100)]),
            'start': rng.choice([0, 0, 1, rng.randrange(0, maxround)]),
-           'ops': _history(rng, kinds[i % len(kinds)], maxround), 'fd': 'sqlite' if i % 4 == 3 else 'mem'}
+           'ops': _history(rng, kinds[i % len(kinds)], maxround), 'fd': ['mem', 'subset', 'mem', 'sqlite'][i % 4]}
   # every cohort size of one dataset, same seed / round: 1..nc
   for nc in (3, 6):
     for n in range(1, nc + 1):
       yield {'kind': 'get', 'ids': _ids(nc, 0), 'n': n, 'seed': 5, 'start': 2, 'ops': [['S'], ['S'], ['R', 2], ['S']]}
+  # streaming sampler: every implementation of shuffled_clients x the edge seeds 0, 1, 2^32-1
+  # (a seed of 0 must be a seed, not "unseeded") x a few shapes, then random ones
+  edge = []
+  for impl in ('mem', 'subset', 'sqlite'):
+    for seed in (0, 1, 2 ** 32 - 1):
+      for nc, n, start, B in ((5, 2, 0, 3), (7, 1, 2, 4), (3, 3, 1, 1)):
+        edge.append({'kind': 'stream', 'ids': _ids(nc, len(edge) % 3), 'n': n, 'start': start, 'k': 3, 'B': B,
+                     'seed': seed, 'src': 'fd', 'fd': impl})
+  for c in edge:
+    yield c
   for i in range(nstream):
     nc = rng.choice([1, 2, 3, 5, 7])
     yield {'kind': 'stream', 'ids': _ids(nc, i % 3), 'n': rng.randrange(1, nc + 2), 'start': rng.choice([0, 1, 2, 3, 7]),
-           'k': rng.randrange(1, 5), 'B': rng.choice([1, 2, 3, nc, nc + 3]), 'seed': rng.randrange(2 ** 31),
-           'src': rng.choice(['fd', 'fd', 'handmade']), 'fd': 'sqlite' if i % 4 == 3 else 'mem'}
+           'k': rng.randrange(1, 5), 'B': rng.choice([1, 2, 3, nc, nc + 3]),
+           'seed': rng.choice([0, 0, 1, 2 ** 32 - 1, rng.randrange(2 ** 32), rng.randrange(2 ** 31)]),
+           'src': rng.choice(['fd', 'fd', 'fd', 'handmade']), 'fd': ['mem', 'subset', 'sqlite'][i % 3]}
 
 
 # --------------------------------------------------------------------------
@@ -112,6 +124,11 @@ def _fd(case):
     with sq.SQLiteFederatedDataBuilder(path) as b:
       b.add_many([(cid, data[cid]) for cid in ids])
     return sq.SQLiteFederatedData.new(path), ids, lambda: shutil.rmtree(d, ignore_errors=True)
+  if case.get('fd') == 'subset':
+    from fedjax.core import federated_data as fdm
+    extra = {b'\x00extra': {'x': np.array([-1], dtype=np.int32)}, b'zz_extra\x00': {'x': np.array([-2, -3], dtype=np.int32)}}
+    extra = {k: v for k, v in extra.items() if k not in data}
+    return fdm.SubsetFederatedData(fedjax.InMemoryFederatedData({**data, **extra}), ids), ids, lambda: None
   return fedjax.InMemoryFederatedData(data), ids, lambda: None
 
 
@@ -136,13 +153,22 @@ def _clients(out):
           for cid, ds, key in out]
 
 
+def _perturb(k):
+  """Moves numpy's process-global RNG to another state: a stream that (wrongly) draws from
+  the global state instead of its own seeded RandomState then differs between creations."""
+  np.random.seed(90001 + 7919 * k)
+  np.random.rand(3 + k)
+
+
 def run(case):
   fd, ids, cleanup = _fd(case)
+  saved = np.random.get_state()
   try:
     if list(fd.client_ids()) != ids:
       raise RuntimeError('client_ids() is not the sorted id list')
     return _run(case, fd, ids)
   finally:
+    np.random.set_state(saved)
     cleanup()
 
 
@@ -169,6 +195,7 @@ def _run(case, fd, ids):
       outs.append(got)
       rounds.append(r)
       try:
+        _perturb(len(outs))
         fresh = _clients(cs.UniformGetClientSampler(fd, n, seed, start_round_num=r).sample())
       except Exception as ex:  # pylint: disable=broad-except
         fresh = type(ex).__name__
@@ -203,18 +230,26 @@ def _run(case, fd, ids):
         for j in rs.permutation(len(ids)):
           yield ids[j], fd.get_client(ids[j])
     return gen()
+  # three independently created streams (restarted sampler, original sampler, raw prefix), each
+  # consumed completely before the next is created, the global numpy RNG perturbed in between
   try:
+    _perturb(1)
     a = cs.UniformShuffledClientSampler(stream(), n, start_round_num=start)
     outs_a = [_clients(a.sample()) for _ in range(k)]
+    _perturb(2)
     b = cs.UniformShuffledClientSampler(stream(), n)
     outs_b = [_clients(b.sample()) for _ in range(start + k)]
     err = None
   except Exception as ex:  # pylint: disable=broad-except
     outs_a, outs_b, err = [], [], type(ex).__name__
+  _perturb(3)
   prefix = [ids.index(cid) for cid, _ in itertools.islice(stream(), (start + k) * n)]
+  _perturb(4)
+  prefix2 = [ids.index(cid) for cid, _ in itertools.islice(stream(), (start + k) * n)]
   ktab, inj = _key_table(set(range(0, start + k + 2)), n)
   paths = [[list(ktab.get(tuple(c[2]), (-1, -1))) for c in o] for o in outs_a]
-  return {'outs': outs_a, 'ref': outs_b, 'err': err, 'stream': prefix, 'key_paths': paths, 'key_table_injective': inj}
+  return {'outs': outs_a, 'ref': outs_b, 'err': err, 'stream': prefix, 'stream_same': prefix == prefix2,
+          'key_paths': paths, 'key_table_injective': inj}
 
 
 # --------------------------------------------------------------------------
@@ -277,6 +312,8 @@ def oracle(case, obs):
   if obs['err'] is not None:
     return v + [('stream-raised', f'the streaming sampler raised {obs["err"]}')]
   start = case['start']
+  if not obs.get('stream_same', True):
+    v.append(('stream-not-reproducible', f'two client streams created with seed {case["seed"]} differ'))
   if obs['outs'] != obs['ref'][start:]:
     v.append(('stream-restart-differs', f'sampler(start={start}) does not reproduce rounds {start}.. of sampler(start=0)'))
   for o in obs['ref']:
@@ -341,6 +378,7 @@ def describe(case, obs):
   else:
     d['start'] = case['start']
     d['src'] = case['src']
+    d['stream_seed'] = {0: '0', 1: '1', 2 ** 32 - 1: '2^32-1'}.get(case['seed'], 'other')
   return d
 
 
